@@ -515,6 +515,8 @@ impl<'a> Run<'a> {
             );
             return Err(Failed)
         }
+        #[cfg(feature = "verif-hooks")]
+        crate::verif::kill_point("store.ta.before_persist");
         if let Err(err) = tmp_file.persist(&path) {
             error!(
                 "Failed to persist temporary file {} to {}: {}",
@@ -523,6 +525,8 @@ impl<'a> Run<'a> {
             );
             return Err(Failed)
         }
+        #[cfg(feature = "verif-hooks")]
+        crate::verif::kill_point("store.ta.persisted");
         Ok(())
     }
 
